@@ -183,6 +183,8 @@ def find_fill_value(data_array: xarray.DataArray) -> Any:
           with :data:`numpy.nan` when opening files.
         * For data arrays that have been opened with ``mask_and_scale=False``,
           the existing ``_FillValue`` is returned.
+        * If the data array is packed in to an integer type on disk
+          and has no fill value, a :exc:`ValueError` is raised.
         * If the data array has a float ``dtype``,
           :data:`numpy.nan` is returned.
         * If none of the above are true, a :exc:`ValueError` is raised.
@@ -199,6 +201,17 @@ def find_fill_value(data_array: xarray.DataArray) -> Any:
             # The dataset was opened with mask_and_scale=False and a mask has not
             # been applied. Masked values should be represented using _FillValue/missing_value.
             return data_array.attrs[attr]
+
+    encoded_dtype = data_array.encoding.get('dtype')
+    if (
+        encoded_dtype is not None
+        and numpy.dtype(encoded_dtype).kind in 'iub'
+        and '_FillValue' not in data_array.encoding
+        and 'missing_value' not in data_array.encoding
+    ):
+        # A variable packed in to an integer type on disk, without any fill value.
+        # It is a float variable in memory, but a nan can not be saved.
+        raise ValueError("No appropriate fill value found")
 
     promoted_dtype, fill_value = maybe_promote(data_array.dtype)
     if promoted_dtype == data_array.dtype:
